@@ -180,6 +180,11 @@ REWRITES = {
     "assert_exists": (r"assert!\(\s*(\w+)\.exists\(\)\s*,\s*\"[^\"]*\"\s*\);", r"vfs::require_exists(\1);", "assert!(file.exists(), msg): a path that does not exist ends the run with a panic message; otherwise nothing happens"),
     "path_is_dir": (r"\b(\w+)\.is_dir\(\)", r"vfs::is_dir(\1)", "Path::is_dir: some boolean (nothing is known about it)"),
     "fs_read_dir": (r"\bread_dir\((\w+)\)", r"vfs::read_dir(\1)", "std::fs::read_dir: an iterator over the entries of the directory (each may fail to be read), own iterator type with vstd's iterator laws"),
+    "lit_to_string": (r'("(?:[^"\\]|\\.)*")\.to_string\(\)', r"vstr::string_of(\1)", "\"lit\".to_string() is the String with that text"),
+    "first_char": (r"\b(\w+)\.chars\(\)\.next\(\)", r"vs2::first_char(\1)", "s.chars().next() is the first character of the text, if any"),
+    "skip_first_char": (r"\b(\w+)\[(\w+)\.len_utf8\(\)\.\.\]\.to_string\(\)", r"vs2::skip_first_char(\1, \2)", "s[c.len_utf8()..].to_string() where c is the first character of s: the text without its first character"),
+    "hashmap_with_capacity": (r"HashMap::with_capacity\((\w+(?:\.\w+)*)\.capacity\(\)\)", r"vs2::map_with_capacity_of(&\1)", "HashMap::with_capacity(v.capacity()) is an empty map (the capacity of an existing Vec can be allocated)"),
+    "into_printer": (r"printer: options\.into\(\)", r"printer: TextPrinter::from(options)", "`options.into()` where a TextPrinter is expected is From<TextOutputOptions> for TextPrinter"),
     "pub_crate": (r"\bpub\(crate\)\s+", r"pub ", "visibility is irrelevant in a single file"),
     "deref_clone": (
         r"(\w+)\.deref\(\)\.clone\(\)", r"vrc::deref_clone(&\1)", "Rc<T>::deref().clone() clones the pointee"),
